@@ -7,7 +7,7 @@ Open Scope Z_scope.
 Definition cdesc (s : summ) (n : N) : Prop :=
   s_total s = n /\ s_ne s = 0%N /\ s_sum s = 0 /\ s_samples s = [] /\ s_ovf s = false.
 
-Lemma cdesc_new : cdesc new_summ 0.
+Lemma cdesc_new sc : cdesc (new_summ sc) 0.
 Proof. repeat split. Qed.
 
 Lemma cdesc_add_total s n : cdesc s n -> cdesc (add_total s) (n + 1).
@@ -33,7 +33,7 @@ Definition count_ok (q : query) (st : aggs) (D : list doc) : Prop :=
   NoDup (map fst (a_bins st)) /\ a_ne st = no_group_cnt D /\
   forall k, ocdesc (lookup k (a_bins st)) (cnt q k D).
 
-Lemma cdesc_or_new o n : ocdesc o n -> cdesc (or_new o) n.
+Lemma cdesc_or_new sc o n : ocdesc o n -> cdesc (or_new sc o) n.
 Proof. destruct o; simpl; [tauto|]. intros ->. apply cdesc_new. Qed.
 
 Lemma fold_count q ds : q_func q = FCount -> forall st P,
@@ -51,7 +51,7 @@ Proof.
       rewrite (N.eqb_sym g), (N.eqb_sym (bucket_of _ _)).
       destruct (N.eqb_spec (snd k) g), (N.eqb_spec (fst k) (bucket_of (q_interval q) (d_mid d)));
         cbn [andb length N.of_nat ocdesc]; try (rewrite N.add_0_r; exact O).
-      split; [|lia]. apply (cdesc_add_total _ _ (cdesc_or_new _ _ O)).
+      split; [|lia]. apply (cdesc_add_total _ _ (cdesc_or_new _ _ _ O)).
     + split; [assumption|]. split; [unfold no_group_cnt in NE; lia|].
       intros k. rewrite N.add_0_r. apply O.
 Qed.
@@ -99,8 +99,8 @@ Qed.
 Lemma ecnt_app q k a b : ecnt q k (a ++ b) = (ecnt q k a + ecnt q k b)%N.
 Proof. unfold ecnt, cnt, no_group_cnt. rewrite !count_app. destruct (key_eqb _ _); lia. Qed.
 
-Lemma ocdesc_merge ox nx oy ny : ocdesc ox nx -> ocdesc oy ny ->
-  ocdesc (match oy with Some h => Some (merge_summ (or_new ox) h) | None => ox end) (nx + ny).
+Lemma ocdesc_merge sc ox nx oy ny : ocdesc ox nx -> ocdesc oy ny ->
+  ocdesc (match oy with Some h => Some (merge_summ (or_new sc ox) h) | None => ox end) (nx + ny).
 Proof.
   intros X Y. destruct oy as [h|]; simpl in *.
   - destruct Y. split; [|lia]. apply cdesc_merge; [apply cdesc_or_new|]; assumption.
@@ -147,7 +147,7 @@ Definition unique_ok (st : aggs) (D : list doc) : Prop :=
 Lemma ucnt_app k a b : ucnt k (a ++ b) = (ucnt k a + ucnt k b)%N.
 Proof. unfold ucnt. destruct (fst k =? 0)%N; [apply count_app|reflexivity]. Qed.
 
-Lemma oudesc_or_new o n : oudesc o n -> cdesc (or_new o) 0.
+Lemma oudesc_or_new sc o n : oudesc o n -> cdesc (or_new sc o) 0.
 Proof. destruct o; simpl; [tauto|]. intros _. apply cdesc_new. Qed.
 
 Lemma fold_unique q ds : q_func q = FUnique -> forall st P,
@@ -165,14 +165,14 @@ Proof.
       unfold key_eqb. cbn [fst snd]. rewrite (N.eqb_sym g).
       destruct (N.eqb_spec (fst k) 0), (N.eqb_spec (snd k) g); cbn [andb length N.of_nat oudesc];
         try (rewrite N.add_0_r; exact O).
-      split; [|lia]. apply (oudesc_or_new _ _ O).
+      split; [|lia]. apply (oudesc_or_new _ _ _ O).
     + split; [assumption|]. split; [unfold no_group_cnt in NE; lia|].
       intros k. unfold ucnt at 2. unfold count. cbn [filter]. rewrite G. cbn [opt_is].
       destruct (fst k =? 0)%N; cbn [length N.of_nat]; rewrite N.add_0_r; apply O.
 Qed.
 
-Lemma oudesc_merge ox nx oy ny : oudesc ox nx -> oudesc oy ny ->
-  oudesc (match oy with Some h => Some (merge_summ (or_new ox) h) | None => ox end) (nx + ny).
+Lemma oudesc_merge sc ox nx oy ny : oudesc ox nx -> oudesc oy ny ->
+  oudesc (match oy with Some h => Some (merge_summ (or_new sc ox) h) | None => ox end) (nx + ny).
 Proof.
   intros X Y. destruct oy as [h|]; simpl in *.
   - destruct Y. split; [|lia]. change 0%N with (0 + 0)%N. apply cdesc_merge; [eapply oudesc_or_new; eauto|assumption].
